@@ -2,6 +2,7 @@
 From Coq Require Import List NArith Bool Arith.
 From Storage Require Import Base.Bytes Db.RwLock Db.RwLockProofs Db.Content Db.Timeline Db.Snapshot Db.SnapshotProofs.
 From Storage Require Import Db.Reader Db.ReaderProofs Db.RestoreX Db.RestoreXProofs Db.RestoreJoin Db.RestoreJoinProofs.
+From Storage Require Import Db.SnapPath Db.SnapPathProofs.
 Import ListNotations.
 Open Scope N_scope.
 
@@ -163,3 +164,67 @@ Proof. exact join_under_lock_deadlocks_lemma. Qed.
 Example no_join_completes : forall p,
   forallb finished (threads (jrun false [1%nat] (init p join_threads) [0; 0; 0; 0; 0; 1; 1; 1; 1; 1]%nat)) = true.
 Proof. exact no_join_completes_lemma. Qed.
+
+(* ---------------- snapshot paths ---------------- *)
+
+Definition asc (l : str) : str := l.
+(* date 20261002, time 150405, database /d/RUNTIME/live.db *)
+Definition ex_env : penv :=
+  {| e_date := asc [50;48;50;54;49;48;48;50]; e_time := asc [49;53;48;52;48;53];
+     e_dir := asc [47;100;47;82;85;78;84;73;77;69]; e_file := asc [108;105;118;101;46;100;98];
+     e_path := asc [47;100;47;82;85;78;84;73;77;69;47;108;105;118;101;46;100;98] |}.
+
+(* "bk-__DATE__-__TIME__.snap" -> "bk-20261002-150405.snap";  "UPDATE" -> "UP20261002" (the bare form);
+   "__DB_FILE__.DATE" -> "live.db.20261002";  "__DATE_" -> "__20261002_";  "date__time" stays;
+   "__DB_DIR__/x": the directory's own name is scanned by the later replacements -> "/d/RUN150405/x" *)
+Example ex_expand :
+  expand ex_env (asc [98;107;45;95;95;68;65;84;69;95;95;45;95;95;84;73;77;69;95;95;46;115;110;97;112])
+    = asc [98;107;45;50;48;50;54;49;48;48;50;45;49;53;48;52;48;53;46;115;110;97;112]
+  /\ expand ex_env (asc [85;80;68;65;84;69]) = asc [85;80;50;48;50;54;49;48;48;50]
+  /\ expand ex_env (asc [95;95;68;66;95;70;73;76;69;95;95;46;68;65;84;69]) = asc [108;105;118;101;46;100;98;46;50;48;50;54;49;48;48;50]
+  /\ expand ex_env (asc [95;95;68;65;84;69;95]) = asc [95;95;50;48;50;54;49;48;48;50;95]
+  /\ expand ex_env (asc [100;97;116;101;95;95;116;105;109;101]) = asc [100;97;116;101;95;95;116;105;109;101]
+  /\ expand ex_env (asc [95;95;68;66;95;68;73;82;95;95;47;120]) = asc [47;100;47;82;85;78;49;53;48;52;48;53;47;120]
+  /\ default_path ex_env = asc [47;100;47;82;85;78;84;73;77;69;47;108;105;118;101;46;100;98;45;50;48;50;54;49;48;48;50;45;49;53;48;52;48;53].
+Proof. vm_compute. repeat split. Qed.
+
+(* a history with paths: two snapshots through templates that expand to the SAME name (the second
+   replaces the first), one to another name, one refused; the hypotheses of the theorems hold *)
+Definition t_a : ptemplate := TGiven (asc [115;45;68;65;84;69]).                  (* "s-DATE" *)
+Definition t_b : ptemplate := TGiven (asc [115;45;95;95;68;65;84;69;95;95]).      (* "s-__DATE__": the same file *)
+Definition t_c : ptemplate := TGiven (asc [111;116;104;101;114]).                 (* "other" *)
+Example ex_paths :
+  let ops := [PX (XBase (OTx [WPut [b_root] k_a [1]] true)); PSnap ex_env t_a false SKPlain;
+              PX (XBase (OTx [WPut [b_root] k_a [2]] true)); PSnap ex_env t_c false SKInView;
+              PSnap ex_env TDefault true SKPlain; PSnap ex_env t_b false SKPlain;
+              PX (XBase (OTx [WPut [b_root] k_a [3]] true))] in
+  let p := prun (fun _ => 7%nat) empty_pdb ops in
+  actual_path ex_env t_a = actual_path ex_env t_b
+  /\ file_at p (actual_path ex_env t_a) = Some (mark (fresh 2) [([b_root], EBucket); ([b_root; k_a], EVal [2])])
+  /\ file_at p (actual_path ex_env t_c) = Some (mark (fresh 1) [([b_root], EBucket); ([b_root; k_a], EVal [2])])
+  /\ file_at p (asc [115;45;68;65;84;69]) = None
+  /\ length (files (base (px p))) = 3%nat
+  /\ forallb (fun o => negb (rewrites (actual_path ex_env t_c) o)) (skipn 4 ops) = true.
+Proof. vm_compute. repeat split. Qed.
+
+(* the seeded variant: the copy goes to the name as GIVEN, the markers into a new empty database
+   opened at the expanded name, which is returned.  The file at the returned path is not the
+   snapshot as soon as template and expansion differ. *)
+Definition split_snapshot (p : pdb) (e : penv) (t : ptemplate) : pdb :=
+  let d := base (px p) in
+  let id := fresh (uuids d) in
+  let n := length (files d) in
+  {| px := {| base := {| live := live d; files := files d ++ [live d; mark id []]; uuids := S (uuids d);
+                         listeners := listeners d; fired := fired d; idf_calls := idf_calls d |};
+              bodies := bodies (px p) |};
+     named := (actual_path e t, S n) :: (template_path e t, n) :: named p |}.
+
+Example split_snapshot_refuted :
+  let p1 := prun (fun _ => 7%nat) empty_pdb [PX (XBase (OTx [WPut [b_root] k_a [1]] true))] in
+  let good := fst (pstep (fun _ => 7%nat) p1 (PSnap ex_env t_a false SKPlain)) in
+  let bad := split_snapshot p1 ex_env t_a in
+  file_at good (actual_path ex_env t_a) = Some (mark (fresh 0) [([b_root], EBucket); ([b_root; k_a], EVal [1])])
+  /\ file_at good (template_path ex_env t_a) = None
+  /\ file_at bad (actual_path ex_env t_a) = Some (mark (fresh 0) [])
+  /\ file_at bad (template_path ex_env t_a) = Some [([b_root], EBucket); ([b_root; k_a], EVal [1])].
+Proof. vm_compute. repeat split. Qed.
